@@ -133,6 +133,10 @@ func init() {
 			l := fr.bufLoc(a[0])
 			return TV(fr.locLoad(l, st, pos)), st
 		},
+		"(*bytes.Buffer).Len": func(fr *Frame, a []Val, st *State, pos token.Pos) (Val, *State) {
+			l := fr.bufLoc(a[0])
+			return TV(App(SInt, "str.len", fr.locLoad(l, st, pos))), st
+		},
 		"(*bytes.Buffer).Bytes": func(fr *Frame, a []Val, st *State, pos token.Pos) (Val, *State) {
 			vc := fr.vc
 			l := fr.bufLoc(a[0])
